@@ -15,6 +15,7 @@ import (
 	"math/rand/v2"
 	"path"
 	"reflect"
+	"slices"
 	"sort"
 	"strconv"
 	"strings"
@@ -154,7 +155,9 @@ type c20Secret struct {
 
 type c20Input struct {
 	Kind     string      `json:"kind"`               // run | join | domain
-	Mode     string      `json:"mode,omitempty"`     // new | apply
+	Mode     string      `json:"mode,omitempty"`     // new | apply | decl (ParseFields; NewStore{Secrets: f.Secrets()}; f.Apply)
+	Scribble string      `json:"scribble,omitempty"` // decl: what the harness does to the slice Secrets() returned, after NewStore and before Apply: sort | reverse | overwrite | clear | rotate | "" (nothing)
+	Copy     bool        `json:"copy,omitempty"`     // decl: NewStore is given a copy of the slice (only the scribbling touches the original)
 	Allow    bool        `json:"allow,omitempty"`    // AllowLookup
 	Arg      string      `json:"arg,omitempty"`      // ptr | struct | nonstruct | nil (untyped nil) | nilptr (nil pointer to the struct)
 	Prefix   string      `json:"prefix"`             //
@@ -292,6 +295,8 @@ type c20Obs struct {
 	Reqs     []string `json:"requests"`
 	Locs     []c20Loc `json:"fields"`
 	Intact   bool     `json:"store_intact_after_overwrite"`
+	Sec1     []string `json:"secrets_first,omitempty"`  // decl: what the first Secrets() call returned (copied at once)
+	Sec2     []string `json:"secrets_second,omitempty"` // decl: what Secrets() returns after NewStore, the scribbling and Apply
 	Err      string   `json:"error_text,omitempty"` // for readers only, never compared
 	Panic    string   `json:"panic,omitempty"`
 }
@@ -462,6 +467,62 @@ func c20Exec(in c20Input) (rec Record) {
 			}
 			obs.Reqs = append([]string{}, cl.log...)
 			sort.Strings(obs.Reqs)
+		case "decl":
+			// the documented way to declare a struct's secrets by hand: the names come from Secrets(),
+			// the store is built over them, then the SAME Fields value is applied
+			f, err := setec.ParseFields(arg, in.Prefix)
+			if err != nil {
+				obs.ErrClass = 1
+				runErr = err
+				break
+			}
+			got := f.Secrets()
+			obs.Sec1 = append([]string{}, got...)
+			cfg := got // the very slice: NewStore sorts and compacts cfg.Secrets in place
+			if in.Copy {
+				cfg = append([]string{}, got...)
+			}
+			if len(in.Declared) > 0 {
+				cfg = append(cfg, in.Declared...)
+			}
+			cl.onMiss = cancel
+			st, runErr = setec.NewStore(ctx, setec.StoreConfig{Client: cl, Secrets: cfg, AllowLookup: in.Allow,
+				PollInterval: -1, Logf: logf})
+			cl.onMiss = nil
+			switch in.Scribble {
+			case "sort":
+				sort.Strings(got)
+			case "reverse":
+				slices.Reverse(got)
+			case "overwrite":
+				for i := range got {
+					got[i] = "zz/overwritten"
+				}
+			case "clear":
+				clear(got)
+			case "rotate":
+				if len(got) > 1 {
+					first := got[0]
+					copy(got, got[1:])
+					got[len(got)-1] = first
+				}
+			}
+			switch {
+			case runErr == nil:
+				if err := f.Apply(ctx, st); err != nil {
+					obs.ErrClass = 2
+					runErr = err
+				}
+			case len(cl.log) == 0:
+				obs.ErrClass = 1
+			case cl.missing:
+				obs.ErrClass = 3
+			default:
+				obs.ErrClass = 2
+			}
+			obs.Sec2 = append([]string{}, f.Secrets()...)
+			obs.Reqs = append([]string{}, cl.log...)
+			sort.Strings(obs.Reqs)
 		default:
 			var err error
 			st, err = setec.NewStore(ctx, setec.StoreConfig{Client: cl, Secrets: in.Declared, AllowLookup: in.Allow,
@@ -594,6 +655,9 @@ func c20Exec(in c20Input) (rec Record) {
 	if in.Mode == "new" {
 		md = "MNew"
 	}
+	if in.Mode == "decl" {
+		md = "MDecl"
+	}
 	var a string
 	switch in.Arg {
 	case "ptr":
@@ -617,8 +681,15 @@ func c20Exec(in c20Input) (rec Record) {
 			unmfail = append(unmfail, fmt.Sprint(t))
 		}
 	}
-	head := fmt.Sprintf("CRun (%s %s %s) %s %s %s %s %s ", md, coqBool(in.Allow), c20CoqNames(in.Declared), a,
-		coqBytes([]byte(in.Prefix)), coqList(svc), coqList(unmfail), coqList(jt))
+	mkHead := func(sec1, sec2 []string) string {
+		mdTail := ""
+		if in.Mode == "decl" {
+			mdTail = " " + c20CoqNames(sec1) + " " + c20CoqNames(sec2)
+		}
+		return fmt.Sprintf("CRun (%s %s %s%s) %s %s %s %s %s ", md, coqBool(in.Allow), c20CoqNames(in.Declared), mdTail, a,
+			coqBytes([]byte(in.Prefix)), coqList(svc), coqList(unmfail), coqList(jt))
+	}
+	head := mkHead(obs.Sec1, obs.Sec2)
 	kb, _ := json.Marshal(in)
 	ntag := 0
 	for _, l := range leaves {
@@ -626,7 +697,7 @@ func c20Exec(in c20Input) (rec Record) {
 			ntag++
 		}
 	}
-	rec = Record{Kind: "run", Input: in, Obs: c20Full{Obs: obs, Head: head}, Key: string(kb),
+	rec = Record{Kind: "run", Input: in, Obs: c20Full{Obs: obs, Head: head, MkHead: mkHead}, Key: string(kb),
 		Nontrivial: in.Arg == "ptr" && ntag >= 2 && (obs.ErrClass == 0 || obs.ErrClass == 2),
 		Coq:        head + obs.coq()}
 	rec.Tags = c20Tags(in, obs, leaves)
@@ -639,8 +710,9 @@ func c20Exec(in c20Input) (rec Record) {
 // c20Full is what goes into the record's obs: the observation plus (not serialised) the
 // Gallina prefix, so that self-test variants can be rendered.
 type c20Full struct {
-	Obs  c20Obs `json:"observed"`
-	Head string `json:"-"`
+	Obs    c20Obs                        `json:"observed"`
+	Head   string                        `json:"-"`
+	MkHead func(s1, s2 []string) string `json:"-"`
 }
 
 func c20Show(v reflect.Value) string {
@@ -676,6 +748,20 @@ func c20Show(v reflect.Value) string {
 
 func c20Tags(in c20Input, obs c20Obs, leaves []c20Leaf) []string {
 	tags := []string{"mode-" + in.Mode, fmt.Sprintf("errclass-%d", obs.ErrClass), "arg-" + in.Arg}
+	if in.Mode == "decl" {
+		tags = append(tags, "scribble-"+in.Scribble)
+		if !sort.StringsAreSorted(obs.Sec1) {
+			tags = append(tags, "names-unsorted")
+		}
+		seen := map[string]bool{}
+		for _, n := range obs.Sec1 {
+			if seen[n] {
+				tags = append(tags, "names-duplicate")
+				break
+			}
+			seen[n] = true
+		}
+	}
 	if in.Allow {
 		tags = append(tags, "allow-lookup")
 	}
@@ -875,10 +961,59 @@ func c20TagName(t string) string { // generator-side only: which name a tag will
 	return t
 }
 
+// c20Unsort makes the order of the tag names differ from their sorted order, deliberately: the names
+// of the tagged leaf fields (in declaration order) are re-dealt in DESCENDING order (70%) or shuffled,
+// and in 40% one name is used by two fields - so that an implementation that pairs fields with a name
+// list somebody else may have sorted, compacted or overwritten cannot get away with it.
+func c20Unsort(r *rand.Rand, fs []c20Field) {
+	var tags []*string
+	var walk func(fs []c20Field)
+	walk = func(fs []c20Field) {
+		for i := range fs {
+			if fs[i].Emb {
+				walk(fs[i].Inner)
+			} else if fs[i].Tag != nil && c20TagName(*fs[i].Tag) != "" {
+				tags = append(tags, fs[i].Tag)
+			}
+		}
+	}
+	walk(fs)
+	if len(tags) < 2 {
+		return
+	}
+	split := func(t string) (string, string) {
+		if i := strings.IndexByte(t, ','); i >= 0 {
+			return t[:i], t[i:]
+		}
+		return t, ""
+	}
+	names := make([]string, len(tags))
+	for i, t := range tags {
+		names[i], _ = split(*t)
+	}
+	if r.IntN(10) < 7 {
+		sort.Sort(sort.Reverse(sort.StringSlice(names)))
+	} else {
+		r.Shuffle(len(names), func(i, j int) { names[i], names[j] = names[j], names[i] })
+	}
+	if r.IntN(10) < 4 {
+		names[len(names)-1] = names[0] // one secret for two fields (first and last: never adjacent when sorted descending)
+	}
+	for i, t := range tags {
+		_, verbs := split(*t)
+		*t = names[i] + verbs
+	}
+}
+
 func c20Generate(r *rand.Rand) c20Input {
 	in := c20Input{Kind: "run", Arg: "ptr", Mode: "apply", Allow: r.IntN(2) == 0}
-	if r.IntN(5) < 2 {
+	switch x := r.IntN(20); {
+	case x < 6:
 		in.Mode = "new"
+	case x < 11:
+		in.Mode = "decl" // declare via Secrets(), then Apply
+		in.Scribble = []string{"", "", "sort", "reverse", "overwrite", "clear", "rotate"}[r.IntN(7)]
+		in.Copy = r.IntN(5) == 0
 	}
 	switch r.IntN(50) {
 	case 0, 1:
@@ -919,6 +1054,9 @@ func c20Generate(r *rand.Rand) c20Input {
 		} else {
 			in.Fields = append(in.Fields, c20GenField(r, fmt.Sprintf("F%d", i), names, valid))
 		}
+	}
+	if in.Mode == "decl" {
+		c20Unsort(r, in.Fields)
 	}
 	// stock the service: one secret per name any tag may ask for (generator-side guess, only
 	// shapes the distribution; what IS asked is decided by the code and by the model)
@@ -969,7 +1107,7 @@ func c20Generate(r *rand.Rand) c20Input {
 			}
 		}
 	}
-	if in.Mode == "new" && r.IntN(3) == 0 && len(in.Svc) > 0 {
+	if (in.Mode == "new" && r.IntN(3) == 0 || in.Mode == "decl" && r.IntN(4) == 0) && len(in.Svc) > 0 {
 		in.Declared = append(in.Declared, in.Svc[r.IntN(len(in.Svc))].Name)
 	}
 	if in.Mode == "apply" && len(in.Declared) == 0 && !in.Allow {
@@ -1041,6 +1179,25 @@ func c20SelfVariants(rec Record) []Record {
 		out = append(out, mk("number of joined errors", o))
 	}
 	in := rec.Input.(c20Input)
+	if in.Mode == "decl" && full.MkHead != nil && len(full.Obs.Sec2) > 0 {
+		// the second Secrets() call returns the names in another order (what a Fields value sharing the
+		// slice NewStore sorted would return), or a foreign name
+		alt := append([]string{}, full.Obs.Sec2...)
+		sort.Strings(alt)
+		if slices.Equal(alt, full.Obs.Sec2) {
+			slices.Reverse(alt)
+		}
+		if slices.Equal(alt, full.Obs.Sec2) {
+			alt[0] = "zz/overwritten"
+		}
+		r2 := mk("names returned by the second Secrets() call", full.Obs)
+		r2.Coq = full.MkHead(full.Obs.Sec1, alt) + full.Obs.coq()
+		out = append(out, r2)
+		alt1 := append([]string{}, alt...)
+		r3 := mk("names returned by the first Secrets() call", full.Obs)
+		r3.Coq = full.MkHead(alt1, full.Obs.Sec2) + full.Obs.coq()
+		out = append(out, r3)
+	}
 	_, leaves := c20Build(in.Fields)
 	for k, l := range leaves {
 		if k >= len(full.Obs.Locs) || (l.F.Tag != nil && strings.Contains(*l.F.Tag, "json")) {
@@ -1097,12 +1254,18 @@ func c20Main(o Opts) {
 	}
 	r := NewRand(o.Seed, 20)
 	var selfSrc []Record
+	ndecl := 0
 	for i := 0; i < nrun; i++ {
 		rec := c20Exec(c20Generate(r))
 		rec.ID = out.n
 		out.Emit(rec)
 		if len(selfSrc) < 10 && i%37 == 5 {
 			selfSrc = append(selfSrc, rec)
+		} else if in := rec.Input.(c20Input); ndecl < 3 && in.Mode == "decl" {
+			if f, ok := rec.Obs.(c20Full); ok && f.Obs.ErrClass == 0 && len(f.Obs.Sec2) >= 2 {
+				selfSrc = append(selfSrc, rec)
+				ndecl++
+			}
 		}
 	}
 	rj := NewRand(o.Seed, 21)
